@@ -109,6 +109,9 @@ def apply_prefixes(rng, doc, outer=None):
     if outer is None and p0:
         doc["prefix"] = p0
         feats.add("prefix:document")
+    elif outer is None and rng.random() < 0.2:
+        doc["prefix"] = ""
+        feats.add("prefix:empty")
     for key in ("datatype", "keytype"):
         if doc.get(key) and p0 and rng.random() < 0.7:
             new = relativise(doc[key], p0)
@@ -126,6 +129,10 @@ def apply_prefixes(rng, doc, outer=None):
             t["prefix"] = rng.choice(["zcv.dt", "zcv", "zcv.dtalt"])
             eff = t["prefix"]
             feats.add("prefix:absolute-nested")
+        elif r < 0.68:
+            # an empty prefix attribute contributes nothing: the next prefix out still applies
+            t["prefix"] = ""
+            feats.add("prefix:empty")
         for key in ("datatype", "keytype"):
             if t.get(key) and eff and rng.random() < 0.8:
                 new = relativise(t[key], eff)
